@@ -648,20 +648,21 @@ def namedtuple_types(tree):
     out = {}
     for st in tree.body:
         if isinstance(st, ast.ClassDef):
-            # ``class _P(namedtuple('_P', 'a b')): __slots__ = (); <methods>``: the same record type with methods added, as
-            # long as no method touches construction or field access
-            if len(st.bases) == 1 and isinstance(st.bases[0], ast.Call) and not st.keywords and not st.decorator_list and \
-                    all((isinstance(b, ast.Expr) and isinstance(b.value, ast.Constant)) or
-                        (isinstance(b, ast.Assign) and len(b.targets) == 1 and isinstance(b.targets[0], ast.Name) and b.targets[0].id == '__slots__' and
-                         isinstance(b.value, ast.Tuple) and not b.value.elts) or
-                        (isinstance(b, ast.FunctionDef) and not (b.name.startswith('__') and b.name.endswith('__')) and
-                         b.name not in ('_make', '_replace', '_asdict', '_fields')) for b in st.body):
-                name, c = st.name, st.bases[0]
-                reserved = set(b.name for b in st.body if isinstance(b, ast.FunctionDef))
-            else:
+            # ``class _P(namedtuple('_P', 'a b')): __slots__ = (); <methods>``: construction and field access are the named
+            # tuple's own when the body defines no constructor / attribute hook and binds no field name
+            if len(st.bases) != 1 or st.keywords or st.decorator_list or not isinstance(st.bases[0], ast.Call):
+                continue
+            c, name = st.bases[0], st.name
+            body_names = set()
+            for m in st.body:
+                if isinstance(m, (ast.FunctionDef, ast.AsyncFunctionDef, ast.ClassDef)):
+                    body_names.add(m.name)
+                else:
+                    body_names |= _stored_names([m])
+            if body_names & {'__new__', '__init__', '__getattribute__', '__getattr__', '__getitem__', '__class_getitem__', '__init_subclass__'}:
                 continue
         elif isinstance(st, ast.Assign) and len(st.targets) == 1 and isinstance(st.targets[0], ast.Name) and isinstance(st.value, ast.Call):
-            name, c, reserved = st.targets[0].id, st.value, set()
+            c, name, body_names = st.value, st.targets[0].id, set()
         else:
             continue
         f = c.func
@@ -677,7 +678,7 @@ def namedtuple_types(tree):
         elif isinstance(spec, (ast.Tuple, ast.List)) and all(isinstance(e, ast.Constant) and isinstance(e.value, str) for e in spec.elts):
             fields = [e.value for e in spec.elts]
         if fields and all(x.isidentifier() and not x.startswith('_') for x in fields) and len(set(fields)) == len(fields) and \
-                not (set(fields) & reserved):
+                not (set(fields) & body_names):
             out[name] = fields
     return out
 
@@ -730,7 +731,16 @@ def project_namedtuples(tree):
                 plans.append(got)
             if not plans:
                 continue
-            loc = dict((f, '%s__%s' % (v, f)) for f in fields)
+            # a projected field is named after the field when the function holds one record only and that name is free in the
+            # whole function (the code then reads as if the options had been plain locals), ``<variable>__<field>`` otherwise
+            import keyword
+            used = set(z.id for z in ast.walk(fn) if isinstance(z, ast.Name)) | set(z.arg for z in ast.walk(fn) if isinstance(z, ast.arg)) | \
+                set(nm for z in ast.walk(fn) if isinstance(z, (ast.Global, ast.Nonlocal)) for nm in z.names) | \
+                set(z.name for z in ast.walk(fn) if isinstance(z, (ast.FunctionDef, ast.AsyncFunctionDef, ast.ClassDef))) | \
+                set((a.asname or a.name).split('.')[0] for z in ast.walk(fn) if isinstance(z, (ast.Import, ast.ImportFrom)) for a in z.names) | \
+                set(z.name for z in ast.walk(fn) if isinstance(z, ast.ExceptHandler) and z.name)
+            plain = len(binds) == 1      # several records in one function: every field keeps its variable's prefix
+            loc = dict((f, f if (plain and f not in used and not keyword.iskeyword(f)) else '%s__%s' % (v, f)) for f in fields)
             # only worth doing when a field of the variable is read by name / index somewhere
             if not any((isinstance(z, ast.Attribute) and z.attr in loc or isinstance(z, ast.Subscript) and isinstance(z.slice, ast.Constant)) and
                        isinstance(z.value, ast.Name) and z.value.id == v for z in ast.walk(fn)):
